@@ -107,7 +107,7 @@ def main():
         }],
         "checks": checks,
         "not_applicable": na,
-        "notes": "Runtime monitoring only: every verdict is 'held on the executions observed'. Exit 0 held, 1 violation, 2 build problem, 3 inconclusive. Known findings: /verif/known_findings.json.",
+        "notes": "Runtime monitoring only: every verdict is 'held on the executions observed'. Exit 0 = no violation observed (verdict held_on_observed or inconclusive in the evidence), 1 = violation, 2 = build problem. Known findings: /verif/known_findings.json.",
     }
     json.dump(m, open(os.path.join(ROOT, "MANIFEST.json"), "w"), indent=1)
     print("checks:", len(checks), "not_applicable:", len(na))
